@@ -7,7 +7,7 @@ from typing import Any, Dict, FrozenSet, List, Optional, Set, Tuple
 from hypothesis import strategies as st
 
 from vlib import responder as rp, sim, wire
-from vlib.core import Violation
+from vlib.core import HarnessError, Violation
 from vlib.respsim import ident_of_lib_record
 
 ID = 'C13'
@@ -61,7 +61,10 @@ def scenario(draw) -> Dict[str, Any]:
                            'qtype': draw(st.sampled_from([None, None, 'QU', 'QM'])), 'at': draw(st.sampled_from([0, 0, 1, 500, 999, 1000, 1500]))})
         else:
             askers.append({'kind': 'lookup', 'inst': draw(st.integers(0, 1)), 'timeout': draw(st.sampled_from([200, 1000, 3000, 10000])),
-                           'qtype': draw(st.sampled_from([None, None, 'QU', 'QM'])), 'at': draw(st.sampled_from([0, 1, 300, 1000]))})
+                           'qtype': draw(st.sampled_from([None, None, 'QU', 'QM'])), 'at': draw(st.sampled_from([0, 1, 300, 1000])),
+                           # the application tries again with the ServiceInfo object of an attempt that timed out / was cancelled
+                           # twelve minutes earlier: a lookup is a lookup, whatever the object went through before
+                           'retry': draw(st.sampled_from([None, None, 'timed-out', 'cancelled']))})
     peers = []
     for _ in range(draw(st.integers(0, 3))):
         peers.append({'asker': draw(st.integers(0, 2)), 'k': draw(st.integers(0, 3)), 'gap': draw(st.sampled_from(GAPS)),
@@ -135,6 +138,19 @@ class Exec:
             task = await host.azc.async_register_service(sim.make_service_info(d))
             await task
         await asyncio.sleep(3.0)
+        self.used_infos: Dict[int, Any] = {}
+        for ai, a in enumerate(case['askers']):
+            if a['kind'] == 'lookup' and a.get('retry'):
+                info = AsyncServiceInfo(TYPES[0], inst_name(a['inst']))
+                if a['retry'] == 'timed-out':
+                    if await info.async_request(zc, 200) is not False:
+                        raise HarnessError('the earlier attempt was meant to time out (nothing is cached yet)')
+                else:
+                    t_ = asyncio.ensure_future(info.async_request(zc, 3000))
+                    await asyncio.sleep(0.25)
+                    t_.cancel()
+                    await asyncio.gather(t_, return_exceptions=True)
+                self.used_infos[ai] = info
 
         def on_send(entry: Dict[str, Any]) -> None:
             if entry['host'] == 'H' and len(entry['data']) >= 3 and not entry['data'][2] & 0x80:
@@ -236,7 +252,7 @@ class Exec:
                     types = [TYPES[i] for i in a['types']]
                     AsyncServiceBrowser(zc, types if len(types) > 1 else types[0], listener=sim.RecListener(w), question_type=qt[a['qtype']])
                 else:
-                    info = AsyncServiceInfo(TYPES[0], inst_name(a['inst']))
+                    info = self.used_infos.get(ai) or AsyncServiceInfo(TYPES[0], inst_name(a['inst']))
                     task = asyncio.ensure_future(info.async_request(zc, a['timeout'], qt[a['qtype']]))
                     task.add_done_callback(lambda f, ai=ai: self.lookup_done.__setitem__(ai, w.now_ms))
                     self.tasks.append(task)
@@ -509,6 +525,8 @@ def check(case: Dict[str, Any]) -> Dict[str, Any]:
             nontrivial = True
             classes.add('peer-question-at-boundary')
     classes.add('askers-%d' % len(case['askers']))
+    if any(a.get('retry') for a in case['askers'] if a['kind'] == 'lookup'):
+        classes.add('lookup-with-the-object-of-an-earlier-failed-attempt')
     if case['services']:
         classes.add('has-registered-services')
     return {'nontrivial': nontrivial, 'classes': sorted(classes), 'excluded': excluded, 'max': {'queries': len(queries), 'max_ka': max([len(q['an']) for q in queries] + [0])},
